@@ -45,7 +45,7 @@ from pathlib import Path
 from harness.translate import c17_tables
 
 ID = "C17"
-LEVEL_TEXT = ("Theorems (37, all closed under the global context). Kinds: for each of the 24 definition forms the member the Inspector derives from "
+LEVEL_TEXT = ("Theorems (42, all closed under the global context). Kinds: for each of the 24 definition forms the member the Inspector derives from "
               "what CPython reports has the same Griffe kind and shared labels as the Visitor's -- stated both over the tabulated observations and "
               "over observations DERIVED from a small object semantics stated once (attribute access on a class/module, inspect.is*, callable, what "
               "each statement stores; C17_observations_derived proves the table is the derived one); the ladder always has a handler; the "
@@ -58,7 +58,11 @@ LEVEL_TEXT = ("Theorems (37, all closed under the global context). Kinds: for ea
               "the names expand_wildcards brings are the names CPython's import * binds (every member list, every __all__), and for every "
               "interleaving of definitions and wildcard imports the surviving binder is the same statement. Rebinding: for every list of imports, "
               "definitions and assignments of one name, when the statements CPython skips are exactly the branch assignments the visitor "
-              "skips, the kept binding is the surviving one (F12 otherwise, e.g. TYPE_CHECKING import + else fallback). Bases: for every class statement in "
+              "skips, the kept binding is the surviving one (F12 otherwise, e.g. TYPE_CHECKING import + else fallback); the places and conditions "
+              "(TYPE_CHECKING, its negation, version tests, except handlers) are in the model, so F12 is an exact decidable predicate over "
+              "the source and the kept member is proved to be a runtime one. Read-only extension hooks: ObjectNode.children's cached value is "
+              "regenerated from the source, and for every object tree and every history of reads by extensions the Inspector traverses the "
+              "whole tree, as without extensions (refuted for a one-shot iterator). Bases: for every class statement in "
               "any nesting of class bodies with any number of written bases Name / Name[...] / root.attr[...], each well bound (defined in an "
               "enclosing scope, imported through a chain of any length, external, builtin), the resolved static base paths equal the "
               "Inspector's, which are CPython's __bases__ without object -- unless class creation rewrites the bases through __mro_entries__ "
@@ -76,7 +80,7 @@ LEVEL_NOTE = ("Trusted: Coq kernel, extraction, translator harness/translate/c17
               "generated members. Wildcard expansion is modelled per source module (names) and per importing body (binder), not the loader's "
               "recursion over modules (C05/C06/C18). Annotation/default expression text is opaque (C03).")
 MODEL = ("Model.C17_run", "run_C17_all")
-COQ_TARGETS = ["Proofs/C17_agents.vo", "Proofs/C17_bases.vo", "Proofs/C17_pyobj.vo", "Proofs/C17_star.vo", "Proofs/C17_rebind.vo", "Model/C17_run.vo"]
+COQ_TARGETS = ["Proofs/C17_agents.vo", "Proofs/C17_bases.vo", "Proofs/C17_pyobj.vo", "Proofs/C17_star.vo", "Proofs/C17_rebind.vo", "Proofs/C17_hooks.vo", "Model/C17_run.vo"]
 TRANSLATOR_NAME = "harness/translate/c17_tables.py"
 RULE = ("seeded random importable packages (7-11 modules over 3 nesting levels, every definition form, signatures from C02's count vectors, "
         "plain / multiple / imported / builtin / explicit-object bases, generic and protocol hierarchies (Generic[T], typing.Generic[T], "
@@ -414,10 +418,15 @@ class Gen:
             guarded = ["import typing", "if typing.TYPE_CHECKING:", f"    from {src} import {n} as Tc{n}"]
             self.meta[f"{mod}.typing"] = {"form": "extimport", "target": "typing"}
             self.meta[f"{mod}.Tc{n}"] = {"form": "typeguarded", "target": f"{src}.{n}"}
-            if rng.random() < 0.3:
+            r = rng.random()
+            if r < 0.2:
                 # ... with a runtime fallback in the else branch: the visitor keeps the import, CPython executes the assignment (F12)
                 guarded += ["else:", f"    Tc{n} = {FALLBACK}"]
-                self.meta[f"{mod}.Tc{n}"]["rebind"] = [["import", 1, 0], ["assign", 1, 1]]
+                self.meta[f"{mod}.Tc{n}"].update({"rebind": [["import", ["then", "tc"]], ["assign", ["else", "tc"]]], "fallback": [1]})
+            elif r < 0.35:
+                # ... the same with the negated test: the import sits in the (type-checking-only) else branch
+                guarded = ["import typing", "if not typing.TYPE_CHECKING:", f"    Tc{n} = {FALLBACK}", "else:", f"    from {src} import {n} as Tc{n}"]
+                self.meta[f"{mod}.Tc{n}"].update({"rebind": [["assign", ["then", "nottc"]], ["import", ["else", "nottc"]]], "fallback": [0]})
             self.ann_pool = [f"Tc{n}", f"Tc{n}", "Missing", "N0"]
         kit = None
         self.ext[mod] = {}
@@ -448,7 +457,7 @@ class Gen:
             exports[name] = {"kind": "value", "defmod": mod, "defname": name, "chain": []}
             if rng.random() < 0.08:
                 body += ["try:", "    pass", "except ImportError:", f"    {name} = {FALLBACK}"]
-                self.meta[f"{mod}.{name}"]["rebind"] = [["assign", 0, 1], ["assign", 1, 0]]
+                self.meta[f"{mod}.{name}"].update({"rebind": [["assign", "top"], ["assign", "except"]], "fallback": [1]})
         for i in range(rng.randint(1, 3)):
             name = f"f{i}{tag}"
             is_async = rng.random() < 0.3
@@ -461,7 +470,7 @@ class Gen:
             if rng.random() < 0.08:
                 body += ["if sys.version_info < (3, 0):", f"    {name} = {FALLBACK}"]
                 self.need_sys.add(mod)
-                self.meta[f"{mod}.{name}"]["rebind"] = [["def", 0, 1], ["assign", 1, 0]]
+                self.meta[f"{mod}.{name}"].update({"rebind": [["def", "top"], ["assign", ["then", "false"]]], "fallback": [1]})
         # imports from lower modules come after this module's own functions/values and before its classes (imported bases)
         body += self.gen_imports(mod, init, exports)
         local_classes = []          # [(name, info)] in definition order
@@ -477,7 +486,7 @@ class Gen:
                 # (only a class that no later class statement of this module can name as a base... the last ones)
                 body += ["if sys.version_info < (3, 0):", f"    {name} = {FALLBACK}"]
                 self.need_sys.add(mod)
-                self.meta[f"{mod}.{name}"]["rebind"] = [["def", 0, 1], ["assign", 1, 0]]
+                self.meta[f"{mod}.{name}"].update({"rebind": [["def", "top"], ["assign", ["then", "false"]]], "fallback": [1]})
         # names bound by assignment to something that is not a plain value; annotated names with and without a value
         self.static_only[mod] = []
         funcs = [(n, o) for n, o in exports.items() if o["kind"] in ("func", "asyncfunc") and not o["chain"]]
@@ -828,11 +837,15 @@ class Gen:
         if r < 0.08:
             # the optional-accelerator idiom: the import succeeds, the fallback in the handler is never executed
             L += ["try:", f"    {stmt}", "except ImportError:", f"    {bound} = {FALLBACK}"]
-            rebind = [["import", 0, 1], ["assign", 1, 0]]
-        elif r < 0.16:
+            rebind = [["import", "top"], ["assign", "except"]]
+        elif r < 0.15:
             L += [stmt, "if sys.version_info < (3, 0):", f"    {bound} = {FALLBACK}"]
             self.need_sys.add(mod)
-            rebind = [["import", 0, 1], ["assign", 1, 0]]
+            rebind = [["import", "top"], ["assign", ["then", "false"]]]
+        elif r < 0.21:
+            L += ["if sys.version_info >= (3, 0):", f"    {stmt}", "else:", f"    {bound} = {FALLBACK}"]
+            self.need_sys.add(mod)
+            rebind = [["import", ["then", "true"]], ["assign", ["else", "true"]]]
         else:
             L.append(stmt)
         hop = {"mod": mod, "init": init, "imp": imp, "cur": mod, "src": src, "srcname": name}
@@ -840,7 +853,7 @@ class Gen:
         # (the key may be a submodule's own path: `from . import leaf` -- keep that module's docstring entry)
         self.meta.setdefault(f"{mod}.{bound}", {}).update({"form": ["imported", "mod", o["kind"]], "chain": chain, "origin": o, "name": bound})
         if rebind:
-            self.meta[f"{mod}.{bound}"]["rebind"] = rebind
+            self.meta[f"{mod}.{bound}"].update({"rebind": rebind, "fallback": [1]})
         exports[bound] = {"kind": o["kind"], "defmod": o["defmod"], "defname": o["defname"], "chain": chain}
 
     def gen_imports(self, mod, init, exports):
@@ -1257,8 +1270,8 @@ def classify(diff, gen, ctx, dyn_tree=None):
         # F12: the visitor keeps the first binding of an if/else (or try/except) although CPython executes the other branch
         if not have_model:
             return "C17-F12"
-        out = ctx.model([["rebind", meta["rebind"]]])[0]
-        if out != ["bad-input"] and out[2] == 1 and out[0] == ["import"] and out[1] == ["assign"]:
+        out = ctx.model([["rebindc", meta["rebind"]]])[0]
+        if out != ["bad-input"] and out[3] == 1 and out[0] == ["import"] and out[2] == ["assign"] and out[1] == [1 if a["runtime"] else 0]:
             return "C17-F12"
     if form == "typeguarded" and not meta.get("rebind") and what == "alias-vs-object" and isinstance(a, dict) and a.get("runtime") is False \
             and b["t"] == "attribute" and gen is not None:
@@ -1268,11 +1281,11 @@ def classify(diff, gen, ctx, dyn_tree=None):
             e = gen.ns.get(star["src"], {}).get(nm)
             if nm in star["names"] and e and e.get("cat") == "f12":
                 src_meta = gen.meta.get(e["source"], {})
-                if src_meta.get("rebind") and (not have_model or ctx.model([["rebind", src_meta["rebind"]]])[0][2] == 1):
+                if src_meta.get("rebind") and (not have_model or ctx.model([["rebindc", src_meta["rebind"]]])[0][3] == 1):
                     return "C17-F12"
     if form == "starred" and meta.get("cat") == "f12" and what == "only-dynamic" and b["t"] == "attribute" and gen is not None:
         src_meta = gen.meta.get(meta["source"], {})
-        if src_meta.get("rebind") and (not have_model or ctx.model([["rebind", src_meta["rebind"]]])[0][2] == 1):
+        if src_meta.get("rebind") and (not have_model or ctx.model([["rebindc", src_meta["rebind"]]])[0][3] == 1):
             return "C17-F12"
     if isinstance(form, list) and form[0] in ("assigned", "annotated") and gen is not None:
         # F9: a name bound by assignment to a callable / class / descriptor; F10: an annotation without value, outside the
@@ -1480,22 +1493,25 @@ def check_package(ctx, gen, root, st, dy, a, b):
 
             def cb_rebind(out, path=path, stmts=stmts, sa=sa, da=da, meta=meta):
                 ctx.count("rebind_ties")
-                ctx.observe("rebind", "/".join(f"{k}{b}{t}" for k, b, t in stmts) + f" F12={out[2]}")
+                ctx.observe("rebind", "/".join(f"{k}@{p if isinstance(p, str) else p[0] + '-' + p[1]}" for k, p in stmts) + f" F12={out[3]}")
                 kind_of = lambda m: None if m is None else {"alias": "import", "function": "def", "class": "def", "attribute": "assign"}.get(m["t"])
                 # (a name that is also a submodule is overwritten by the loader: the agent's own member is not observable)
                 if path not in gen.files_mods and [kind_of(sa)] != out[0]:
-                    ctx.tie_failure("correspondence", "visit_all(model) vs the member the visitor keeps", {"model": out[0], "impl": kind_of(sa)}, {"path": path, "stmts": stmts})
+                    ctx.tie_failure("correspondence", "visit_all_c(model) vs the member the visitor keeps", {"model": out[0], "impl": kind_of(sa)}, {"path": path, "stmts": stmts})
+                if path not in gen.files_mods and sa is not None and sa["t"] == "alias" and out[1] != [1 if sa["runtime"] else 0]:
+                    ctx.tie_failure("correspondence", "runtime flag of the kept member (model) vs Alias.runtime", {"model": out[1], "impl": sa["runtime"]}, {"path": path, "stmts": stmts})
                 live = live_object(path)
-                executed = any(k == "assign" and t for k, b, t in stmts[1:])
+                taken = [i for i, t in enumerate(out[4]) if t]
+                executed = bool(taken) and taken[-1] in meta.get("fallback", [])
                 if (live == int(FALLBACK) and type(live) is int) != executed:
-                    ctx.tie_failure("oracle", "generated branch is / is not taken vs the value bound at runtime", {"generator": executed, "cpython": repr(live)[:60]}, {"path": path, "stmts": stmts})
+                    ctx.tie_failure("oracle", "place_taken(model) vs the value bound at runtime", {"model": out[4], "cpython": repr(live)[:60]}, {"path": path, "stmts": stmts})
                 origin_value = isinstance(meta.get("form"), list) and meta["form"][0] == "imported" and meta["form"][2] == "value"
                 # (F4: a function / class of the underscore twin is inlined by the inspector; reported by the direct comparison)
                 f4 = bool(meta.get("origin")) and meta.get("chain") and meta["chain"][0]["mod"] != meta["origin"]["defmod"] \
                     and same_components(meta["chain"][0]["mod"], meta["origin"]["defmod"])
-                if da is not None and da["t"] != "module" and not origin_value and not f4 and [kind_of(da)] != out[1]:
-                    ctx.tie_failure("correspondence", "run_all(model) vs the member the inspector creates", {"model": out[1], "impl": kind_of(da)}, {"path": path, "stmts": stmts})
-            ask(["rebind", stmts], cb_rebind)
+                if da is not None and da["t"] != "module" and not origin_value and not f4 and [kind_of(da)] != out[2]:
+                    ctx.tie_failure("correspondence", "run_all(model) vs the member the inspector creates", {"model": out[2], "impl": kind_of(da)}, {"path": path, "stmts": stmts})
+            ask(["rebindc", stmts], cb_rebind)
         if form in ("selfimport", "builtinimport"):
             def cb_imps(out, path=path, sa=sa, da=da, form=form):
                 ctx.count("import_stmt_ties")
@@ -1701,6 +1717,30 @@ def check_package(ctx, gen, root, st, dy, a, b):
                 if out[2] != oracle_signature(fn):
                     ctx.tie_failure("oracle", "inspect_signature(model) vs inspect.signature", {"model": out[2], "cpython": oracle_signature(fn)}, {"sig": meta["sig"]})
             ask(["params", args], cb_params)
+
+    # ObjectNode.children read several times (what a walking extension does before the Inspector)
+    from _griffe.agents.nodes.runtime import ObjectNode
+    for path, meta in gen.meta.items():
+        f = meta.get("form")
+        if f == "module" or (isinstance(f, list) and f[0] == "class"):
+            obj = live_object(path)
+            if obj is None or (f != "module" and not inspect.isclass(obj)):
+                continue
+            node = ObjectNode(obj, path.rsplit(".", 1)[-1])
+            members = [n for n, m in inspect.getmembers(obj) if node._pick_member(n, m)]
+            k = ctx.rng.randint(0, 2)
+            got = None
+            for _ in range(k + 1):
+                got = [c.name for c in node.children]
+
+            def cb_children(out, path=path, k=k, got=got, members=members):
+                ctx.count("children_ties")
+                ctx.observe("children_reads_before", k)
+                if out != got:
+                    ctx.tie_failure("correspondence", "seen_after(children_impl)(model) vs reading ObjectNode.children again", {"model": out[:8], "impl": got[:8], "earlier_reads": k}, {"path": path})
+                if got != members:
+                    ctx.property_failure({"files": gen.files, "pkg": gen.pkg, "member": path}, {"what": "children-depend-on-earlier-reads", "earlier_reads": k, "members": members[:12], "children": got[:12]})
+            ask(["children", k, members], cb_children)
 
     # wildcard imports: which names they bring
     for path, meta in gen.meta.items():
@@ -2153,7 +2193,7 @@ WITNESS_FILES = {
     "_a.py": "def tw(): ...\n",
     "a.py": "from {pkg}._a import tw\n",
     "gen.py": "from typing import Generic, List, TypeVar\nT = TypeVar('T')\nclass G(Generic[T]): ...\nclass L(List[int]): ...\nclass K(Generic[T], G[T]): ...\n",
-    "w12.py": "import functools\nimport typing\nif typing.TYPE_CHECKING:\n    from {pkg}._a import tw as T\nelse:\n    T = None\ndef deco(fn):\n    @functools.wraps(fn)\n    def w(*a, **k): return fn(*a, **k)\n    return w\nclass C:\n    @classmethod\n    @deco\n    def cm(cls, a, b=1): ...\n",
+    "w12.py": "import functools\nimport typing\nif typing.TYPE_CHECKING:\n    from {pkg}._a import tw as T\nelse:\n    T = None\nif not typing.TYPE_CHECKING:\n    U = None\nelse:\n    from {pkg}._a import tw as U\ndef deco(fn):\n    @functools.wraps(fn)\n    def w(*a, **k): return fn(*a, **k)\n    return w\nclass C:\n    @classmethod\n    @deco\n    def cm(cls, a, b=1): ...\n",
     "w9.py": "import functools\nimport typing\nimport _io\nimport {pkg}.w9 as me\ndef h(a): ...\nlam = lambda a: a\npart = functools.partial(h)\nx: int\nclass K:\n    c: typing.ClassVar[int]\n",
 }
 
@@ -2172,7 +2212,8 @@ def replay_witnesses(ctx):
             "C17-F9": st["w9.lam"].kind.value == "attribute" and dy["w9.lam"].kind.value == "function" and st["w9.part"].kind.value == "attribute"
                       and dy["w9"].members["part"].is_alias and dy["w9"].members["part"].target_path == "functools.part",
             "C17-F10": "x" in st["w9"].members and "x" not in dy["w9"].members and "c" in st["w9.K"].members and "c" not in dy["w9.K"].members,
-            "C17-F12": st["w12"].members["T"].is_alias and dy["w12"].members["T"].kind.value == "attribute",
+            "C17-F12": st["w12"].members["T"].is_alias and dy["w12"].members["T"].kind.value == "attribute"
+                       and st["w12"].members["U"].is_alias and not st["w12"].members["U"].runtime and dy["w12"].members["U"].kind.value == "attribute",
             "C17-F8": ([base_path(st["gen.L"], x) for x in st["gen.L"].bases], [str(x) for x in dy["gen.L"].bases],
                        [base_path(st["gen.K"], x) for x in st["gen.K"].bases], [str(x) for x in dy["gen.K"].bases])
                       == (["typing.List"], ["builtins.list", "typing.Generic"], ["typing.Generic", f"{pkg}.gen.G"], [f"{pkg}.gen.G"]),
@@ -2238,6 +2279,9 @@ def explore(ctx):
             ["star", [["f"]], [["f", 1, 0, 0, 0], ["_g", 1, 0, 0, 0], ["sub", 1, 0, 1, 0]], ["f", "_g"]],
             ["star", [], [["f", 1, 0, 0, 0], ["_g", 1, 0, 0, 0], ["T", 0, 1, 0, 1]], ["f", "_g"]],
             ["binder", "f", [["bind", "f"], ["star", ["f", "g"]], ["bind", "g"], ["star", ["g"]]]],
+            ["rebindc", [["import", ["then", "tc"]], ["assign", ["else", "tc"]]]], ["rebindc", [["assign", ["then", "nottc"]], ["import", ["else", "nottc"]]]],
+            ["rebindc", [["import", "top"], ["assign", "except"], ["assign", ["then", "false"]], ["def", ["then", "true"]]]],
+            ["rebind", [["import", 0, 1], ["assign", 1, 0]]], ["children", 0, ["a", "b"]], ["children", 2, ["a", "b"]],
             ["bases", [[1, "K", [["N0", ["local"]]]], [0, "p.m", [["G", ["local"]], ["K", ["local"]], ["Generic", ["ext", ["typing", "Generic"]]],
                                                                   ["Imp", ["chain", [[[["p", "m"], 0], [1, ["b"], "Imp", []]]], ["p", "b"], "Imp"]]]]],
              [[["sub", ["name", "G"]], ["class", ["p", "m", "G"], 1]], [["name", "Imp"], ["class", ["p", "b", "Imp"], 0]],
